@@ -111,6 +111,11 @@ def run_case(seed, tier, rec, st):
                         got = ("ok", fn())
                     except Exception as ex:
                         got = ("raise", ex)
+                    if d is None and t[0] == "tv" and rname in ("codec", "func"):
+                        # a bound TypeVar acts as Optional[bound] in field / nested positions; at the root of a
+                        # codec there is no enclosing position, both outcomes are accepted there
+                        rec.count("root_typevar_null_skipped")
+                        continue
                     judge(rec, fam, ref, t, rname, label, d, exp, got, facts)
                 if fingerprint(d) != snap:
                     rec.violation("input-mutated", {"type": tast.render(t), "input": common.short(d)}, facts)
